@@ -14,7 +14,11 @@
     and still owes its report.
   * the events of the select loop (`Op`): bytes on descriptor 0, EOF on descriptor 0, a child's
     output, a child's death seen as SIGCHLD + EOF in one wake-up (`exit`), or in two steps: the
-    handler runs and `select` returns -1/EINTR (`reap`), later the EOF on the pipe is read (`peof`).
+    handler runs and `select` returns -1/EINTR (`reap`), later the EOF on the pipe is read (`peof`);
+    a child that closes its output descriptors without dying (`cclose`): since `docmd()` keeps the write end
+    `d[i].fdout` open until `sigchld()` has stored the wait status ("delays eof until after death"), this is
+    not an EOF for the spawner — the report is never written before the status of the child is known
+    (`Props.C18_spawn_report_after_status`).
   * the exit test at the top of the main loop is `exited`: end of input seen AND no slot in use
     (reaped-but-unreported slots count as in use).  Once it holds no event has any effect
     (`Props.C18_spawn_exit`), so `orun` does not need to stop; `consumed` is the number of events of
@@ -195,6 +199,9 @@ inductive Op
   | eof                                 -- EOF on descriptor 0 (`flagreading = 0`)
   | reap (slot : Nat) (wstat : Nat)     -- the child of `slot` died; SIGCHLD handler ran, `select` returned -1
   | peof (slot : Nat)                   -- EOF on the pipe of `slot` whose child had been reaped before
+  | cclose (slot : Nat)                 -- the live child of `slot` closes its own copies of the pipe's write end (its
+                                        -- descriptors 1 and 2) and goes on running: the spawner still holds `d[slot].fdout`,
+                                        -- so the pipe does NOT reach EOF and nothing is observable (round-4 seeds)
   deriving Repr
 
 def usedCount (st : St) : Nat := (st.slots.filter Option.isSome).length
@@ -232,6 +239,7 @@ def ostep (k : Kind) (st : St) : Op → St × List Ev
   | .eof => (stopReading st, [])
   | .reap slot wstat => (reap st slot wstat, [])
   | .peof slot => pipeEof k st slot
+  | .cclose _ => (st, [])
 
 def orun (k : Kind) : St → List Op → St × List Ev
   | st, [] => (st, [])
